@@ -65,13 +65,21 @@ Section(es, kwB, kwE, fmt) ==
     ELSE DecDigits(Len(es)) \o <<32>> \o kwB \o Eol(fmt)
          \o FlatS([i \in 1..Len(es) |-> RenderEntry(es[i], fmt) \o Eol(fmt)]) \o kwE \o Eol(fmt)
 
+\* fmt.order: "asc" entries in ascending code order in one section per kind; "desc" the same section with the entries
+\* in descending order; "sections" one section per entry, highest codes first (nothing in 9.10.3 orders the entries)
+RevSeq(s) == [i \in 1..Len(s) |-> s[Len(s) + 1 - i]]
+Sections(es, kwB, kwE, fmt) ==
+    CASE fmt.order = "asc"  -> Section(es, kwB, kwE, fmt)
+      [] fmt.order = "desc" -> Section(RevSeq(es), kwB, kwE, fmt)
+      [] OTHER -> FlatS([i \in 1..Len(es) |-> Section(<<RevSeq(es)[i]>>, kwB, kwE, fmt)])
+
 Render(cm, fmt) ==
     LET chars == SelectSeq(cm.entries, LAMBDA e : e.k = "char")
         rngs  == SelectSeq(cm.entries, LAMBDA e : e.k # "char")
         lo == [i \in 1..cm.width |-> 0] hi == [i \in 1..cm.width |-> 255]
     IN Prolog \o <<49, 32>> \o KwCodeSpaceB \o Eol(fmt) \o HexOfBytes(lo, fmt.lower) \o Gap(fmt) \o HexOfBytes(hi, fmt.lower) \o Eol(fmt)
        \o KwCodeSpaceE \o Eol(fmt)
-       \o Section(chars, KwBfCharB, KwBfCharE, fmt) \o Section(rngs, KwBfRangeB, KwBfRangeE, fmt) \o Epilog
+       \o Sections(chars, KwBfCharB, KwBfCharE, fmt) \o Sections(rngs, KwBfRangeB, KwBfRangeE, fmt) \o Epilog
 
 \* ------------------------------------------------------------- decoding
 Covers(e, code) ==
